@@ -94,7 +94,7 @@ CHECKS = {
  "C11": dict(cat="fault_enumeration", ref="§6 C11",
    text="LefLexer.tla models the lexer over character classes with character index and byte offset (invariants: spans on "
         "character boundaries, increasing, inside the text, tokens <= characters); TLC enumerates every string up to 5 (6) "
-        "characters over 13 class representatives incl. multi-byte ones, and every valid text of the LEF generator with exactly one "
+        "characters over 15 class representatives incl. multi-byte ones, and every valid text of the LEF generator with exactly one "
         "token fault; all are lexed/parsed by the crate in a watched child process (Ok|Err only, error formatting included, "
         "Ok => write/re-read without crash), plus every character-boundary prefix of valid texts and a wall-clock scaling test.",
    note="Trusted: TLC, token->text glue, child isolation. Exact token types/lines are conformance (drift), not the property. "
